@@ -402,6 +402,53 @@ fn main() {
             run_case(&spec, &objs, &script, &opts, &shape, false, &mut cr);
             cr
         }));
+        // ---- trigger_transfer_at(toi, None / Some(t)) at arbitrary packet indices - while the object is being sent, while it
+        // waits for a slot behind another object, between two of its transfers - with an ample horizon, so that the
+        // lifecycle clauses are judged strictly: counted objects are sent exactly n times and leave, carousel objects go on
+        let n_tg = ctx.tier.pick(2500usize, 200_000);
+        gens.push(Gen::new("trigger_scripts", n_tg, move |ctx, i| {
+            let mut rng = Rng::keyed(ctx.seed, "C12tg", 0, i as u64);
+            let mut cr = CaseResult::default();
+            let mut spec = SenderSpec::new(OtiSpec::new(Fec::NoCode, 1024, 8, 0));
+            spec.full_fdt = rng.chance(1, 2);
+            spec.fdt_carousel = CarouselSpec::DelayMs(3_600_000);
+            spec.fdt_duration_s = 3600;
+            spec.queues = vec![(0, rng.range(1, 2) as u32)];
+            let nobj = rng.range(1, 3) as usize;
+            let mut objs = vec![];
+            let mut script = vec![];
+            let mut per = 0usize;
+            for k in 0..nobj {
+                let len = rng.range(10, 70) as usize;
+                let mut o = ObjSpec::new(gen_bytes(&mut rng, len), &format!("file:///tg/{}", k));
+                o.oti = Some(OtiSpec::new(Fec::NoCode, 16, 2, 0));
+                o.max_transfer_count = rng.range(1, 3) as u32;
+                if k == 0 && rng.chance(1, 3) {
+                    o.carousel = Some(CarouselSpec::DelayMs(*rng.pick(&[0u64, 100, 400])));
+                }
+                per += len.div_ceil(16) * o.max_transfer_count as usize;
+                script.push((When::Start, Op::Add(k)));
+                objs.push(o);
+            }
+            script.push((When::Start, Op::Publish));
+            let ntrig = rng.range(1, 3);
+            let mut pk = 0usize;
+            for _ in 0..ntrig {
+                pk += rng.range(0, per as u64 / 2 + 2) as usize;
+                let t = rng.below(nobj as u64) as usize;
+                // immediate, or at an instant of the first two seconds (past or future when it is executed)
+                let at = if rng.chance(2, 3) { None } else { Some(rng.below(2000)) };
+                script.push((When::Packets(pk), Op::Trigger(t, at)));
+            }
+            let any_carousel = objs.iter().any(|o| o.carousel.is_some());
+            let mut opts = ScriptOpts::every(100, 150);
+            opts.drain = rng.chance(3, 4);
+            opts.stop_when_empty = !any_carousel;
+            opts.max_packets = 20_000;
+            let shape = format!("tg|{}|{}|{}|{}", nobj, any_carousel, ntrig, spec.full_fdt);
+            run_case(&spec, &objs, &script, &opts, &shape, true, &mut cr);
+            cr
+        }));
         // ---- a stream source whose rewind fails ONCE (a transient I/O error of the caller's Read + Seek) at the start of
         // one transfer. What the sender does with that one attempt is its business and is not judged (the unchanged tree
         // counts it as a transfer); what the lifecycle clauses still demand is that the object is not stranded: a
